@@ -57,11 +57,11 @@ def main():
         if not v.get("confirmed"):
             print("not confirmed:", name, v)
             continue
-        m = re.match(r"(C\d\d)([bcd]?)_(\d)$", name)
+        m = re.match(r"(C\d\d)([bcde]?)_(\d)$", name)
         if not m:
             continue
         pid, rnd, k = m.groups()
-        src = os.path.join(WT, pid, {"": "mutants", "b": "mutants2", "c": "mutants3", "d": "mutants4"}[rnd], k)
+        src = os.path.join(WT, pid, {"": "mutants", "b": "mutants2", "c": "mutants3", "d": "mutants4", "e": "mutants5"}[rnd], k)
         if not os.path.isdir(src):
             print("missing source dir", src)
             continue
@@ -76,7 +76,7 @@ def main():
         det = checks.get(name, {})
         meta = {
             "breaks_property": pid,
-            "origin": "independent sub-agent given only the property text and a scratch worktree" + {"": "", "b": " (round 2: told to avoid the code sites of the round-1 changes for this property)", "c": " (round 3: shown the earlier changes for this property and told to find new sites, mechanisms, configurations and boundary values)", "d": " (round 4: as round 3, run against the final machinery without further changes to it)"}[rnd],
+            "origin": "independent sub-agent given only the property text and a scratch worktree" + {"": "", "b": " (round 2: told to avoid the code sites of the round-1 changes for this property)", "c": " (round 3: shown the earlier changes for this property and told to find new sites, mechanisms, configurations and boundary values)", "d": " (round 4: as round 3; for C05, C08, C12, C14, C16, C18 written while the machinery was being finalised)", "e": " (round 5: as round 3, run against the final machinery)"}[rnd],
             "summary": agent_meta.get("summary", ""),
             "needs_to_manifest": agent_meta.get("needs_to_manifest", ""),
             "confirmed_by_me": {
